@@ -51,15 +51,25 @@ class Partial:
         return apply_fn(m, self.fn, list(self.args) + list(args))
 
 
-_CALL = re.compile(r'^\s*(\w+)\((\w+)\)\s*$')
+_CALL = re.compile(r'^\s*(\(?)\s*(\w+)\((\w+)\)\s*\)?\s*(?:>\s*(\w+)\s*)?$')
 
 
 def _row_call(m, expr, row, extra):
+    """Row expressions of the forms  ff(a)   (ff(a))   ff(a) > kk  (names: row fields, then variables, then globals)."""
     mt = _CALL.match(expr)
-    name, field = mt.group(1), mt.group(2)
+    name, field, bound = mt.group(2), mt.group(3), mt.group(4)
+
+    def look(n):
+        if n in row:
+            return row[n]
+        if extra and n in extra:
+            return extra[n]
+        return m.g.get(n)
     fn = extra.get(name) if extra and name in extra else m.g.get(name)
-    arg = row.get(field) if field in row else (extra.get(field) if extra and field in extra else m.g.get(field))
-    return apply_fn(m, fn, [arg])
+    val = apply_fn(m, fn, [look(field)])
+    if bound is not None:
+        return rv.compare(val, look(bound)) > 0
+    return val
 
 
 def apply_fn(m, fn, args):
@@ -110,6 +120,14 @@ def ref_lib():
             _row_call(m, expr, row, extra)
         return None
 
+    def global_get(m, args):
+        return m.g.get(args[0])
+
+    def global_set(m, args):
+        m.g[args[0]] = args[1] if len(args) > 1 else None
+        return m.g[args[0]]
+
+    lib.update({'systemGlobalGet': global_get, 'systemGlobalSet': global_set})
     lib.update({'arrayIndexOf': array_index_of, 'systemPartial': system_partial, 'objectNew': object_new,
                 'dataFilter': data_filter, 'dataCalculatedField': data_calc, 'dataJoin': data_join})
     return lib
@@ -315,6 +333,73 @@ def fam_structured(arg):
     return acc.result()
 
 
+def with_function_conditions(body):
+    """Replace every cc() condition by a call of the script function qq() (which asks cc()): statements run by a
+    function that is called from a condition count like any others."""
+    def e(x):
+        k = x[0]
+        if k == 'call':
+            if x[1] == 'cc':
+                return ('call', 'qq', [])
+            return ('call', x[1], [e(a) for a in x[2]])
+        if k == 'bin':
+            return ('bin', x[1], e(x[2]), e(x[3]))
+        if k in ('not', 'neg', 'grp'):
+            return (k, e(x[1]))
+        return x
+
+    def b(body):
+        out = []
+        for s in body:
+            k = s[0]
+            if k == 'expr':
+                out.append(('expr', e(s[1])))
+            elif k == 'assign':
+                out.append(('assign', s[1], e(s[2])))
+            elif k == 'if':
+                out.append(('if', [(e(c), b(sub)) for c, sub in s[1]], b(s[2]) if s[2] is not None else None))
+            elif k == 'while':
+                out.append(('while', e(s[1]), b(s[2])))
+            elif k == 'for':
+                out.append(('for', s[1], s[2], e(s[3]), b(s[4])))
+            elif k == 'return':
+                out.append(('return', e(s[1]) if s[1] is not None else None))
+            elif k == 'func':
+                out.append(('func', s[1], s[2], s[3], b(s[4])))
+            else:
+                out.append(s)
+        return out
+    return [('func', 'qq', [], False, [('expr', ('call', 'systemLog', [('str', 'q')])), ('return', ('call', 'cc', []))])] + b(body)
+
+
+def fcond_specs(tier):
+    depths = (1, 2) if tier == 'quick' else (1, 2, 3)
+    for depth in depths:
+        for idx in chains.chains(depth):
+            levels = chains.chain_levels(idx)
+            decos = (0, 3) if depth < 3 else (0,)
+            for spec in chains.specs_for_chain(levels, decos, ('counter',), ('global', 'func')):
+                if spec['leaf'] in (0, 2) or depth == 1:
+                    yield spec
+
+
+def check_fcond(case, acc):
+    bs = load_impl()
+    src = ast.source(with_function_conditions(chains.build(case['spec'])))
+    model = bs.parse_script(src)
+    sweep_paths(model, dict(case, source=src), acc, 1)
+
+
+def fam_fcond(arg):
+    acc = Acc('fcond')
+    for spec in arg:
+        acc.cases += 1
+        check_fcond({'spec': spec}, acc)
+    if arg:
+        acc.sample({'spec': arg[0], 'source': ast.source(with_function_conditions(chains.build(arg[0])))})
+    return acc.result()
+
+
 DATA = "arrayNew(objectNew('a', 1), objectNew('a', 2), objectNew('a', 3))"
 CALLPATHS = [
     ('recursion', "function rec(n):\n    systemLog('r' + n)\n    if n > 0:\n        rec(n - 1)\n    endif\nendfunction\nrec(3)\nsystemLog('end')\n"),
@@ -329,6 +414,13 @@ CALLPATHS = [
     ('calc-variables', f"function dbl(a):\n    systemLog('d' + a)\n    return a * 2\nendfunction\ndd = dataCalculatedField({DATA}, 'b', 'dbl(a)', objectNew('vv', 1))\nsystemLog('end')\n"),
     ('join', f"function key(a):\n    systemLog('j' + a)\n    return a\nendfunction\ndd = dataJoin({DATA}, {DATA}, 'key(a)')\nsystemLog('end')\n"),
     ('join-variables', f"function key(a):\n    systemLog('j' + a)\n    return a\nendfunction\ndd = dataJoin({DATA}, {DATA}, 'key(a)', null, false, objectNew('vv', 1))\nsystemLog('end')\n"),
+    ('filter-variables-nested-call', f"function weight(a):\n    systemLog('w' + a)\n    return a * 2\nendfunction\ndd = dataFilter({DATA}, 'weight(a) > kk', objectNew('kk', 3))\nsystemLog('end')\n"),
+    ('filter-variables-grouped-call', f"function keep(a):\n    systemLog('k' + a)\n    return a > 1\nendfunction\ndd = dataFilter({DATA}, '(keep(a))', objectNew('vv', 1))\nsystemLog('end')\n"),
+    ('calc-variables-nested-call', f"function weight(a):\n    systemLog('w' + a)\n    return a * 2\nendfunction\ndd = dataCalculatedField({DATA}, 'b', 'weight(a) > kk', objectNew('kk', 3))\nsystemLog('end')\n"),
+    ('join-variables-grouped-call', f"function key(a):\n    systemLog('j' + a)\n    return a\nendfunction\ndd = dataJoin({DATA}, {DATA}, '(key(a))', null, false, objectNew('vv', 1))\nsystemLog('end')\n"),
+    ('function-in-if-condition', "function chk(n):\n    systemLog('c' + n)\n    return n > 1\nendfunction\nif chk(1):\n    systemLog('a')\nelif chk(2):\n    systemLog('b')\nelse:\n    systemLog('c')\nendif\nsystemLog('end')\n"),
+    ('function-in-while-condition', "function more():\n    nn = systemGlobalGet('nn') + 1\n    systemGlobalSet('nn', nn)\n    systemLog('m' + nn)\n    return nn < 3\nendfunction\nnn = 0\nwhile more():\n    systemLog('body')\nendwhile\nsystemLog('end')\n"),
+    ('function-in-for-values-and-jumpif', "function vals():\n    systemLog('v')\n    return arrayNew(1, 2)\nendfunction\nfunction yes():\n    systemLog('y')\n    return true\nendfunction\nfor w in vals():\n    systemLog('w' + w)\nendfor\njumpif (yes()) done\nsystemLog('skipped')\ndone:\nsystemLog('end')\n"),
     ('filter-variables-twice-in-loop', f"function keep(a):\n    systemLog('k' + a)\n    return a > 1\nendfunction\nix = 0\nwhile ix < 2:\n    dd = dataFilter({DATA}, 'keep(a)', objectNew('vv', ix))\n    ix = ix + 1\nendwhile\nsystemLog('end')\n"),
     ('callback-in-loop-in-function', "function pred(v):\n    systemLog('p' + v)\n    return v == 20\nendfunction\nfunction outer():\n    for w in arrayNew(1, 2):\n        arrayIndexOf(arrayNew(10, 20), pred)\n    endfor\nendfunction\nouter()\nsystemLog('end')\n"),
 ]
@@ -440,6 +532,7 @@ def families(tier):
             for block in split(list(range(nfn)), 1 if length < 2 else (4 if length == 2 else 19)):
                 fn_shards.append((length, pos, block))
     specs = list(structured_specs(tier))
+    fspecs = list(fcond_specs(tier))
     depth = 3
     ntrees = len(include_trees(depth))
     inc_shards = [(depth, style, ts) for style in INCLUDE_STYLES for ts in split(list(range(ntrees)), 8)]
@@ -450,6 +543,7 @@ def families(tier):
                expected=sum(k * nfn * jm.NP ** (k - 1) for k in range(1, fnlen + 1))),
         Family('structured', fam_structured, split(specs, 48), 'parsed counter-controlled nesting chains (global and function scope) x tapes with <= 1 deviation x every limit',
                expected=len(specs)),
+        Family('fcond', fam_fcond, split(fspecs, 48), 'the counter-controlled nesting chains with every if/elif/while guard condition computed by a script function (statements run from a condition are counted) x tapes with <= 1 deviation x every limit', expected=len(fspecs)),
         Family('callpaths', fam_callpaths, [[i] for i in range(len(CALLPATHS))], 'hand-written call paths: recursion, callbacks, systemPartial, data helpers with/without variables',
                expected=len(CALLPATHS)),
         Family('includes', fam_includes, inc_shards, f'every include tree of depth <= {depth}, fan-out <= 2 x {{adjacent, separated, inside a loop}} x every limit',
@@ -457,7 +551,7 @@ def families(tier):
     ]
 
 
-_CHECKS = {'lists': check_list, 'fnlists': check_fnlist, 'structured': check_structured, 'callpaths': check_callpath, 'includes': check_include}
+_CHECKS = {'fcond': check_fcond, 'lists': check_list, 'fnlists': check_fnlist, 'structured': check_structured, 'callpaths': check_callpath, 'includes': check_include}
 
 
 def replay(family, case):
